@@ -1,5 +1,6 @@
 import MazeVerif.Lemmas.AllInst
 import MazeVerif.Lemmas.TokName
+import MazeVerif.Lemmas.TokNameInj
 import MazeVerif.Generated.TokenizerTypes
 /-! # C15 — tokenizer configuration space is enumerated exactly and identified uniquely
 
@@ -15,10 +16,11 @@ open MZ.Gen.Tok
 
 /-! ## full statement -/
 
-/-- Full statement of C15 on the model. The last-but-one conjunct (string-level injectivity of names on the whole
-    space) and the digest clause are NOT proved here in full: see `C15_name_injective_partial`
-    (component level) and `C15_hash_distinct_of_injective_digest` (conditional); the thorough tier decides both
-    facts for the concrete 5,878,656 tokenizers by exhaustive enumeration of the real objects (a test). -/
+/-- Full statement of C15 on the model. Every conjunct except the digest clause is a theorem below (string-level
+    injectivity of names on the whole space: `C15_name_injective`). The digest clause is conditional on the external
+    digest being injective on the names that occur (`C15_hash_distinct_of_injective_digest`); under that proviso the
+    whole statement holds: `C15_full_of_injective_digest`. The thorough tier decides the digest fact for the concrete
+    5,878,656 tokenizers by exhaustive enumeration of the real objects (a test). -/
 def C15_full (blake : String → Nat) : Prop :=
   -- enumeration: exact, duplicate-free, for every well-formed type tree
   (∀ (T : Ty) (v : Val), v ∈ allInstances T ↔ HasTy v T) ∧
@@ -200,24 +202,87 @@ theorem C15_hash_distinct_of_injective_digest (blake : String → Nat) (fn : Str
   simp only [hashInt, ha, hb, Option.map_some, Option.some.injEq] at hh
   exact hinj v hv w hw a b ha hb hh
 
-/-- string-level injectivity of names on the whole concrete space (full statement; not proved as a theorem) -/
+/-- string-level injectivity of names on the whole concrete space (full statement; proved: `C15_name_injective`) -/
 def C15_name_injective_full : Prop :=
   ∀ v ∈ allInstances ty_MazeTokenizerModular, ∀ w ∈ allInstances ty_MazeTokenizerModular,
     mtmName fieldNames v = mtmName fieldNames w → v = w
 
 set_option maxRecDepth 8000 in
-/-- PARTIAL (component level, token lists): within each of the four element families that make up a tokenizer
-    (coord 9, adjacency list 216, target 2; the 1008 path tokenizers are left to the test tiers for build-time reasons) and for the 63 step-tokenizer permutations, the token lists that
-    `_stringify`/`name` emit are pairwise distinct. Missing for `C15_name_injective_full`: that the name of a whole
-    tokenizer — the concatenation `AOTP(<coord>, <adj>, <target>, <path>)` joined into ONE string — can be split back
-    uniquely into these components (unique readability of the bracketed rendering). The thorough tier tests the full
-    statement on all 5,878,656 real names. -/
+/-- component level, token lists (kept from the earlier round; now subsumed by `C15_name_tokens_injective` and
+    `C15_name_injective`): within the coord (9), adjacency-list (216), target (2) families and for the 63
+    step-tokenizer permutations the token lists that `_stringify`/`name` emit are pairwise distinct
+    (direct comparison of the enumerated values). -/
 theorem C15_name_injective_partial :
     ((allInstances ty_CoordTokenizers__CoordTokenizer).map (nameToks fieldNames)).Nodup ∧
     ((allInstances ty_AdjListTokenizers__AdjListTokenizer).map (nameToks fieldNames)).Nodup ∧
     ((allInstances ty_TargetTokenizers__TargetTokenizer).map (nameToks fieldNames)).Nodup ∧
     ((allInstances ty_StepTokenizers_StepTokenizerPermutation).map (nameToks fieldNames)).Nodup := by
   refine ⟨by decide +kernel, by decide +kernel, by decide +kernel, by decide +kernel⟩
+
+/-! ### unique readability of the bracketed rendering (generic, structural) -/
+
+/-- GENERIC: for EVERY field-name table `fn` and EVERY type tree `T` that passes the decidable side condition
+    `injCheck` (Literal renderings pairwise prefix-incomparable; skipped `_type_` fields one-valued; as many keys as
+    fields; alternatives of an abstract class / Union are dataclasses with distinct bracket-free `__name__`s — or, as a
+    fallback for small nodes, the node's enumerated renderings are pairwise prefix-incomparable), the name is a
+    PREFIX CODE on the enumerated values: a name followed by anything determines the value and the remainder.
+    No enumeration of `allInstances T` is involved for nodes that pass the structural test. -/
+theorem C15_name_prefix_code (fn : String → List String) (T : Ty) (h : injCheck fn none T = true)
+    (v : Val) (hv : v ∈ allInstances T) (w : Val) (hw : w ∈ allInstances T) (r1 r2 : String)
+    (e : elName fn v ++ r1 = elName fn w ++ r2) : v = w ∧ r1 = r2 :=
+  elName_code fn T (code_of_check fn T none h) v w ((mem_all T v).mp hv) ((mem_all T w).mp hw) r1 r2 e
+
+/-- GENERIC: hence `_TokenizerElement.name` is injective on the enumerated values of every checked tree, as a string
+    and a fortiori as a token list -/
+theorem C15_elName_injective_generic (fn : String → List String) (T : Ty) (h : injCheck fn none T = true)
+    (v : Val) (hv : v ∈ allInstances T) (w : Val) (hw : w ∈ allInstances T) :
+    (elName fn v = elName fn w → v = w) ∧ (nameToks fn v = nameToks fn w → v = w) :=
+  ⟨elName_inj fn T (code_of_check fn T none h) v w ((mem_all T v).mp hv) ((mem_all T w).mp hw),
+   nameToks_inj fn T (code_of_check fn T none h) v w ((mem_all T v).mp hv) ((mem_all T w).mp hw)⟩
+
+/-- GENERIC: `MazeTokenizerModular.name` (`"<Class>-" + prompt_sequencer.name`) is injective on the enumerated values of
+    every one-field dataclass over a checked tree -/
+theorem C15_mtmName_injective_generic (fn : String → List String) (name : String) (p : Val → Bool) (T : Ty)
+    (h : injCheck fn none T = true)
+    (v : Val) (hv : v ∈ allInstances (.data name p [T])) (w : Val) (hw : w ∈ allInstances (.data name p [T]))
+    (e : mtmName fn v = mtmName fn w) : v = w :=
+  mtmName_inj fn name p T (code_of_check fn T none h) v w ((mem_all _ v).mp hv) ((mem_all _ w).mp hw) e
+
+set_option maxRecDepth 8000 in
+/-- the regenerated tokenizer tree passes the side condition. Structural for every dataclass / abstract-class node
+    (about 60 atoms: class names, keys, `Literal[0,1,2]`); the fallback comparison is used only for the Union of
+    1..4-tuples of step tokenizers (63 values). -/
+theorem C15_tokenizers_name_check : injCheck fieldNames none ty_MazeTokenizerModular = true := by decide +kernel
+
+private theorem code_mtm : Code fieldNames none ty_MazeTokenizerModular :=
+  code_of_check fieldNames _ none C15_tokenizers_name_check
+
+private theorem code_ps : Code fieldNames none ty_PromptSequencers__PromptSequencer :=
+  code_ctx (by decide)
+    (code_of_check fieldNames _ (some "prompt_sequencer")
+      (injCheck_data_single (name := "MazeTokenizerModular") (p := fun _ => true) (by decide) (by decide) none
+        C15_tokenizers_name_check)) none
+
+/-- the names of the prompt sequencers (everything after `MazeTokenizerModular-`) are uniquely readable:
+    a prefix code on all 5,878,656 values -/
+theorem C15_tokenizers_name_prefix_code
+    (v : Val) (hv : v ∈ allInstances ty_PromptSequencers__PromptSequencer)
+    (w : Val) (hw : w ∈ allInstances ty_PromptSequencers__PromptSequencer) (r1 r2 : String)
+    (e : elName fieldNames v ++ r1 = elName fieldNames w ++ r2) : v = w ∧ r1 = r2 :=
+  elName_code fieldNames _ code_ps v w ((mem_all _ v).mp hv) ((mem_all _ w).mp hw) r1 r2 e
+
+/-- names as TOKEN LISTS are injective on the WHOLE space (not only inside the families of
+    `C15_name_injective_partial`) -/
+theorem C15_name_tokens_injective :
+    ∀ v ∈ allInstances ty_MazeTokenizerModular, ∀ w ∈ allInstances ty_MazeTokenizerModular,
+      nameToks fieldNames v = nameToks fieldNames w → v = w :=
+  fun v hv w hw e => nameToks_inj fieldNames _ code_mtm v w ((mem_all _ v).mp hv) ((mem_all _ w).mp hw) e
+
+/-- FULL, string level: two enumerated tokenizers with the same `name` string are equal -/
+theorem C15_name_injective : C15_name_injective_full :=
+  fun v hv w hw e =>
+    mtmName_inj fieldNames "MazeTokenizerModular" (fun _ => true) ty_PromptSequencers__PromptSequencer code_ps v w
+      ((mem_all _ v).mp hv) ((mem_all _ w).mp hw) e
 
 /-! ## save / load -/
 
@@ -263,6 +328,22 @@ theorem C15_legacy_concrete :
   rw [mem_all]
   exact checkTy_sound _ _ ((show ∀ mv ∈ fromLegacy, checkTy ty_MazeTokenizerModular mv.2 = true by decide +kernel) mv hmv)
 
+/-! ## the whole statement, modulo the external digest -/
+
+/-- everything in `C15_full` holds as soon as the external digest (blake2b, then CPython's reduction mod 2^61-1)
+    is injective on the names that occur -/
+theorem C15_full_of_injective_digest (blake : String → Nat)
+    (hinj : ∀ v ∈ allInstances ty_MazeTokenizerModular, ∀ w ∈ allInstances ty_MazeTokenizerModular,
+      ∀ a b, mtmName fieldNames v = some a → mtmName fieldNames w = some b →
+      pyHash (blake a) = pyHash (blake b) → a = b) : C15_full blake := by
+  refine ⟨C15_enum_exact, C15_enum_nodup, C15_tokenizers_wf, C15_count_tokenizers, C15_name_injective, ?_,
+    fun v hv => (C15_saveload_tokenizers v hv).1, fun v => C15_legacy_equiv fromLegacy v⟩
+  intro v hv w hw hh
+  obtain ⟨ps, _, _, e1⟩ := mtmName_isSome (fn := fieldNames) ((mem_all _ v).mp hv)
+  obtain ⟨qs, _, _, e2⟩ := mtmName_isSome (fn := fieldNames) ((mem_all _ w).mp hw)
+  have hab := C15_hash_distinct_of_injective_digest blake fieldNames _ hinj v w hv hw _ _ e1 e2 hh
+  exact C15_name_injective v hv w hw (by rw [e1, e2, hab])
+
 /-! ## non-vacuity -/
 
 -- the enumeration theorems talk about a non-trivial tree: nested dataclass, abstract class, Union of tuples, filters
@@ -290,5 +371,32 @@ example : isLegacyEquivalent fromLegacy defaultTokenizer = true ∧
   constructor <;> decide +kernel
 -- hash: a function of the name
 example : hashInt String.length fieldNames defaultTokenizer = some 252 := by decide +kernel
+
+-- generic theorem, positive instance: a tree with an abstract class, nested dataclasses, bools, a Literal and a
+-- skipped `_type_` field passes the check, has 9 values, and two of them have different names
+example : injCheck fieldNames none ty_CoordTokenizers__CoordTokenizer = true ∧
+    (allInstances ty_CoordTokenizers__CoordTokenizer).length = 9 ∧
+    elName fieldNames v_CoordTokenizers_UT = "UT()" := by
+  refine ⟨by decide +kernel, by decide +kernel, by decide +kernel⟩
+-- the side condition is not vacuous: two classes with the same `__name__` under one abstract class fail the check,
+-- and indeed their names collide
+example : let T : Ty := .abstr (fun _ => true) [.data "A.X" (fun _ => true) [], .data "B.X" (fun _ => true) []]
+    injCheck (fun _ => []) none T = false ∧ Val.obj "A.X" [] ∈ allInstances T ∧ Val.obj "B.X" [] ∈ allInstances T ∧
+    elName (fun _ => []) (.obj "A.X" []) = elName (fun _ => []) (.obj "B.X" []) := by
+  refine ⟨by decide +kernel, by decide +kernel, by decide +kernel, by decide +kernel⟩
+-- ... and so do Literal arguments with the same rendering (`"1"` and `1`) or one a prefix of the other (`1`, `10`)
+example : let T : Ty := .data "K" (fun _ => true) [.lit [.str "1", .int 1]]
+    injCheck (fun _ => ["k"]) none T = false ∧
+    elName (fun _ => ["k"]) (.obj "K" [.lit (.str "1")]) = elName (fun _ => ["k"]) (.obj "K" [.lit (.int 1)]) := by
+  refine ⟨by decide +kernel, by decide +kernel⟩
+example : injCheck (fun _ => ["k"]) none (.data "K" (fun _ => true) [.lit [.int 1, .int 10]]) = false := by
+  decide +kernel
+-- `C15_name_injective` / `C15_name_tokens_injective` talk about a space with distinct members whose names differ
+example : defaultTokenizer ∈ allInstances ty_MazeTokenizerModular ∧
+    (∃ w ∈ allInstances ty_MazeTokenizerModular, w ≠ defaultTokenizer ∧
+      mtmName fieldNames w ≠ mtmName fieldNames defaultTokenizer) := by
+  refine ⟨(mem_all _ _).mpr (checkTy_sound _ _ (by decide +kernel)),
+    (fromLegacy.map (·.2)).getLastD defaultTokenizer,
+    (mem_all _ _).mpr (checkTy_sound _ _ (by decide +kernel)), by decide +kernel, by decide +kernel⟩
 
 end MZ.AI
